@@ -295,7 +295,7 @@ def insert_panic_hooks(text, relpath, log):
     return text2
 
 
-def extract(work, modules, macos=False, big_arena=False, contracts=None, extra_files=None, extra_cfgs=None):
+def extract(work, modules, macos=False, big_arena=False, contracts=None, extra_files=None, extra_cfgs=None, arch=None):
     """Build work/crate from REPO/src. modules: list of proof-module file names (contracts/kani/*).
     contracts: list of dicts {file, fn, nth, cfg_hint, lines:[...]} for T3.
     extra_files: {relative path under src: text} generated proof modules (e.g. the fake! arm harnesses);
@@ -333,6 +333,21 @@ def extract(work, modules, macos=False, big_arena=False, contracts=None, extra_f
             n = t.count('target_os = "macos"')
             wr(rel, t.replace('target_os = "macos"', "verif_macos"))
             log.append({"rule": "T5", "file": rel, "tokens_renamed": n})
+
+    # T8: the architecture dispatch of internal.rs is compiled with the arm of another architecture selected
+    # (the `target_arch = "<a>"` tokens of that one file become cfg flags; exactly one flag is set)
+    if arch:
+        rel = "injector_core/internal.rs"
+        t = rd(rel)
+        n = 0
+        for a in ("aarch64", "x86_64", "arm"):
+            tok = 'target_arch = "%s"' % a
+            n += t.count(tok)
+            t = t.replace(tok, "verif_arch_%s" % a)
+        if n == 0:
+            raise LostAnchor("T8: no target_arch token in " + rel)
+        wr(rel, t)
+        log.append({"rule": "T8", "file": rel, "tokens_renamed": n, "selected": arch})
 
     # T3 (before T4 so that anchors are found in pristine text)
     for c in contracts or []:
@@ -397,6 +412,8 @@ def extract(work, modules, macos=False, big_arena=False, contracts=None, extra_f
     if big_arena:
         cfgs.append("verif_big_arena")
     cfgs += list(extra_cfgs or [])
+    if arch:
+        cfgs.append("verif_arch_%s" % arch)
     with open(os.path.join(crate, "Cargo.toml"), "w") as f:
         f.write(
             '[package]\nname = "injectorpp"\nversion = "0.4.0"\nedition = "2021"\n\n'
